@@ -3,7 +3,7 @@ from worldcheck import *
 from sched import hx
 
 PROP = "C03"
-THEOREMS = [tuple(x) for x in json.load(open(os.path.join(VERIF, "lib", "pins", PROP + ".json")))]
+THEOREMS = ["C03", "C03Joint"]
 
 
 def gen(rng, **kw):
